@@ -380,7 +380,8 @@ const (
 )
 
 func (ret *J2TStateMachine) GrowReqCache(n int) {
-	c := cap(ret.ReqsCache) + n*resizeFactor
+	// NOTICE: grow geometrically, every nested struct appends its bitmap here (a linear step copies O(depth^2) bytes)
+	c := cap(ret.ReqsCache)*resizeFactor + n*resizeFactor
 	tmp := make([]byte, len(ret.ReqsCache), c)
 	copy(tmp, ret.ReqsCache)
 	ret.ReqsCache = tmp
